@@ -41,6 +41,14 @@ def gen_cases_raw(ctx):
     yield {"kind": "grid", "s1": [10.0, 11.0, 12.0], "s2": [1.0, 2.0], "md": 0.5, "off": 9.0, "corpus": "off-first-longer"}
     yield {"kind": "grid", "s1": [1.0, 2.0], "s2": [10.0, 11.0, 12.0], "md": 0.5, "off": -9.0, "corpus": "off-second-longer"}
     # structured sizes: 1, 2, 2^k-1, 2^k, 2^k+1 on both sides (equal stamps shifted by a quarter step)
+    # long trajectories (beyond any block size of a block-wise implementation: 256, 512, 1024) with drop-outs in the longer one,
+    # so that neighbouring poses of the shorter one contest the same counterpart — also across index 255/256, 511/512, 1023/1024
+    for drops in ((512, 1024), (511, 1023, 256), (513, 1025, 255, 700), (256, 257, 512, 513)):
+        n1 = 1100
+        s1 = [float(k) for k in range(n1)]
+        s2 = [float(k) for k in range(n1 + 150) if k not in drops]
+        yield {"kind": "grid", "s1": s1, "s2": s2, "md": 1.0, "off": 0.0, "corpus": "long-contested"}
+        yield {"kind": "grid", "s1": s2, "s2": s1, "md": 1.0, "off": 0.0, "corpus": "long-contested-swapped"}
     for n1 in (1, 2, 3, 4, 5, 7, 8, 9, 15, 16, 17, 31, 32, 33, 63, 64, 65):
         n2 = r.choice([n1, n1 + 1, max(1, n1 - 1), 2 * n1])
         yield {"kind": "grid", "s1": [k / 2 for k in range(n1)], "s2": [k / 2 + 0.125 for k in range(n2)],
